@@ -18,7 +18,7 @@ func init() {
 		RealParts:  []string{"experiment.Floats, Experiment / Trial / Generation aggregate accessors, Generation.FillPopulationStatistics", "Experiment.Execute producing the records (sequential executor, fake clock)"},
 		StubParts:  []string{"GenerationEvaluator (scripted)", "wall clock"},
 		Assumes:    []string{"reference meanings are the accessor documentation: solved count = trials with a solved generation; per-trial best = the generation champion of maximal fitness (ties: any of them); winner statistics = first solved generation, averaged over solved trials, -1 when none; trials left unrecorded by an aborted run are zero-valued records", "relative tolerance 1e-9"},
-		ProbeNames: []string{"probe.series.unsorted", "probe.series.empty", "probe.series.single", "probe.series.ties", "probe.experiment.cut_short", "probe.experiment.mixed_solved_unsolved", "probe.experiment.none_solved", "probe.best_champion_tie"},
+		ProbeNames: []string{"probe.series.unsorted", "probe.series.empty", "probe.series.single", "probe.series.ties", "probe.experiment.cut_short", "probe.experiment.mixed_solved_unsolved", "probe.experiment.none_solved", "probe.best_champion_tie", "probe.record_surgery"},
 	})
 }
 
@@ -166,7 +166,54 @@ func scenarioC19(c *RunCtx) {
 		c.Count("probe.experiment.cut_short")
 	}
 	exp := s.Exp
-	ctx := func() string { return "experiment: " + s.Describe() }
+	surgery := ""
+	// The accessors are defined over whatever is recorded, not only over what Execute records: a share of the runs edits
+	// the record first (generations kept most-recent-first or shuffled, an extra generation recorded after the winner,
+	// another generation marked solved, a truncated trial). The reference recomputes from the edited record.
+	if len(exp.Trials) > 0 && t.Chance("record.surgery", 1, 3) {
+		c.Count("probe.record_surgery")
+		for k := t.Range("surgery.ops", 1, 3); k > 0; k-- {
+			ti := t.Draw("surgery.trial", len(exp.Trials))
+			tr := &exp.Trials[ti]
+			n := len(tr.Generations)
+			if n == 0 {
+				continue
+			}
+			switch t.Draw("surgery.kind", 5) {
+			case 0: // most recent first
+				for i, j := 0, n-1; i < j; i, j = i+1, j-1 {
+					tr.Generations[i], tr.Generations[j] = tr.Generations[j], tr.Generations[i]
+				}
+				surgery += fmt.Sprintf(" reverse(trial %d)", ti)
+			case 1: // shuffled
+				rng := t.Sub("surgery.shuffle")
+				for i := n - 1; i > 0; i-- {
+					j := rng.Intn(i + 1)
+					tr.Generations[i], tr.Generations[j] = tr.Generations[j], tr.Generations[i]
+				}
+				surgery += fmt.Sprintf(" shuffle(trial %d)", ti)
+			case 2: // one more, unsolved, generation recorded after the last one
+				g := tr.Generations[t.Draw("surgery.src", n)]
+				g.Solved, g.WinnerNodes, g.WinnerGenes, g.WinnerEvals = false, 0, 0, 0
+				g.Id = n
+				tr.Generations = append(tr.Generations, g)
+				surgery += fmt.Sprintf(" append-unsolved(trial %d)", ti)
+			case 3: // another generation marked solved
+				gi := t.Draw("surgery.gen", n)
+				g := &tr.Generations[gi]
+				if g.Champion != nil {
+					g.Solved = true
+					g.WinnerNodes, g.WinnerGenes, g.WinnerEvals = 3+t.Draw("surgery.wn", 9), 2+t.Draw("surgery.wg", 9), 10+t.Draw("surgery.we", 500)
+					surgery += fmt.Sprintf(" mark-solved(trial %d generation #%d)", ti, gi)
+				}
+			case 4: // truncated
+				tr.Generations = tr.Generations[:t.Draw("surgery.cut", n)]
+				surgery += fmt.Sprintf(" truncate(trial %d)", ti)
+			}
+		}
+		c.Op("record surgery:%s", surgery)
+	}
+	ctx := func() string { return "experiment: " + s.Describe() + " record surgery:[" + surgery + "]" }
 
 	// ----- Floats on every recorded series, permutations and prefixes -----
 	series := 0
